@@ -1244,8 +1244,10 @@ func (m *Nitro) LoadFromDisk(dir string, concurr int, callb ItemCallback) (*Snap
 				for {
 					itm, err := r.ReadItem()
 					if err != nil {
+						// Keep serving the work channel: the producer blocks
+						// forever if the workers are gone
 						errors[shard] = err
-						return
+						break loop
 					}
 
 					if itm == nil {
@@ -1346,7 +1348,7 @@ func (m *Nitro) LoadFromDisk(dir string, concurr int, callb ItemCallback) (*Snap
 						itm, err := r.ReadItem()
 						if err != nil {
 							errors[shard] = err
-							return
+							break loop
 						}
 
 						if itm == nil {
